@@ -120,10 +120,14 @@ impl Clone for MatrixToInstance { #[verifier::external_body] fn clone(&self) -> 
 pub struct GlobalPreprocessed { pub commitment: Commitment, pub instances: Instances, pub matrix_to_instance: MatrixToInstance }
 pub struct CommonData { pub preprocessed: Option<GlobalPreprocessed>, pub lookups: Vec<Lookups> }
 /// the preprocessed width the binding declares for table i (0: no binding / no entry / no preprocessed columns)
-pub uninterp spec fn sp_declared_width(pre: Option<GlobalPreprocessed>, i: int) -> int;
-/// `common.preprocessed.as_ref().and_then(|g| g.instances.get(i)).and_then(|meta| meta.as_ref()).map_or(0, |meta| meta.width)`
+pub open spec fn sp_declared_width(pre: Option<GlobalPreprocessed>, i: int) -> int { match sp_declared(pre, i) { Some(w) => w, None => 0 } }
+/// the entry of the binding for table i, if there is a binding, it has an i-th entry and that entry has preprocessed columns
+pub uninterp spec fn sp_declared(pre: Option<GlobalPreprocessed>, i: int) -> Option<int>;
+/// `common.preprocessed.as_ref().and_then(|g| g.instances.get(i)).and_then(|meta| meta.as_ref()).map_or(DFLT, |meta| meta.width)`: the default is the code's (R6 keeps it verbatim)
 #[verifier::external_body]
-pub fn declared_width(common: &CommonData, i: usize) -> (r: usize) ensures r == sp_declared_width(common.preprocessed, i as int) { unimplemented!() }
+pub fn declared_width(common: &CommonData, i: usize, dflt: usize) -> (r: usize)
+    ensures r == (match sp_declared(common.preprocessed, i as int) { Some(w) => w, None => dflt as int })
+{ unimplemented!() }
 pub uninterp spec fn sp_prep_width<const D: usize>(air: CircuitTableAir<D>) -> int;
 impl<const D: usize> CircuitTableAir<D> {
     #[verifier::external_body]
@@ -245,7 +249,7 @@ def build():
     # the preprocessed-binding check (fix 069e8d7): R5 / R6 / R8 forms, each applies where the idiom occurs
     v.rewrite_re('R5', r'for \((\w+), (\w+)\) in airs\.iter\(\)\.enumerate\(\) \{', r'for \1 in 0..airs.len() { let \2 = &airs[\1]; /*@widths*/', min_count=0)
     v.rewrite_re('R11', r'BaseAir::<BaseVal>::preprocessed_width\((\w+)\)', r'\1.preprocessed_width()', min_count=0)
-    v.rewrite_re('R6', r'common\s*\.preprocessed\s*\.as_ref\(\)\s*\.and_then\(\|g\| g\.instances\.get\((\w+)\)\)\s*\.and_then\(\|meta\| meta\.as_ref\(\)\)\s*\.map_or\(0, \|meta\| meta\.width\)', r'declared_width(common, \1)', min_count=0)
+    v.rewrite_re('R6', r'common\s*\.preprocessed\s*\.as_ref\(\)\s*\.and_then\(\|g\| g\.instances\.get\((\w+)\)\)\s*\.and_then\(\|meta\| meta\.as_ref\(\)\)\s*\.map_or\(([\w.]+), \|meta\| meta\.width\)', r'declared_width(common, \1, \2)', min_count=0)
     v.rewrite_re('R8', r'BatchStarkProverError::Verify\(format!\(\s*"preprocessed width mismatch[^"]*"\s*\)\)', 'BatchStarkProverError::Verify(errmsg())', min_count=0, flags_dotall=True)
     unmap_iter_collect(v)
     unmap_option(v)
